@@ -17,7 +17,7 @@ import subprocess
 import sys
 
 PY = '/venv/bin/python'
-ROOT = '/tmp/seed'
+ROOT = os.environ.get('SEED_ROOT', '/tmp/seed')
 OUT = '/verif/seeded'
 WORK = '/tmp/seedverify'
 
@@ -97,7 +97,7 @@ def verify(item):
 def main():
     os.makedirs(WORK, exist_ok=True)
     only = [a for a in sys.argv[1:] if not a.startswith('+')]
-    items = [(f'C{i:02d}', v) for i in range(1, 17) for v in ('a', 'b') if not only or f'C{i:02d}' in only or f'C{i:02d}-{v}' in only]
+    items = [(f'C{i:02d}', v) for i in range(1, 17) for v in os.environ.get('SEED_VARIANTS', 'a b').split() if not only or f'C{i:02d}' in only or f'C{i:02d}-{v}' in only]
     with cf.ThreadPoolExecutor(max_workers=8) as ex:
         for sid, res in ex.map(verify, items):
             print(sid, 'confirmed' if res.get('confirmed') else 'NOT CONFIRMED', '| check exit', res.get('check_exit'), res.get('check_rules_fired'),
